@@ -791,6 +791,7 @@ func isUnknownSpec(a predOutcome) predOutcome {
 //@ atcall executeNextItem assert [C13] smallest-int-kept-by-plus: is[int64](v) && as[int64](v) == -9223372036854775808 && sameFloat(dynret[float64](floatCallback, 0, toFloat(as[int64](v))), toFloat(as[int64](v))) ==> arg_value == any(dynret[int64](intCallback, 0, as[int64](v)))
 //@ atcall executeNextItem assert [C13] float-negated: is[float64](v) ==> arg_value == any(dynret[float64](floatCallback, 0, as[float64](v)))
 //@ ensures [C13 C06 C09] not-found-means-every-item-tried: r0 == statusNotFound && r1 == nil && !(node.Next() == nil && found == nil) ==> ncalls(exec.executeNextItem) == len(seq.list)
+//@ ensures [C06 C13] exists-mode-casts-first: r0 == statusOK && r1 == nil && found == nil && node.Next() == nil && len(seq.list) == 1 && is[json.Number](seq.list[0]) ==> ncalls(castJSONNumber) == 1
 //@ ensures [C06 C13] exists-ok-comes-from-continuation: found == nil && node.Next() != nil && r0 == statusOK ==> ncalls(exec.executeNextItem) >= 1 && callret[resultStatus](exec.executeNextItem, 0) == statusOK
 
 // ---------------------------------------------------------------------------
